@@ -1,0 +1,23 @@
+//go:build !verif
+
+package gojq
+
+// Without the verif build tag every optimisation switch is constant false.
+const (
+	optConstObject uint32 = 1 << iota
+	optConstArray
+	optUnaryConst
+	optConstIndex
+	optAssignSetpath
+	optInlineArg
+	optIfConstResult
+	optIfEmptyCond
+	optCallExpElide
+	optBindExpElide
+	optTailRec
+	optPeepPop
+	optPeepConst
+	optJumpOpt
+)
+
+func verifOptOff(uint32) bool { return false }
